@@ -45,10 +45,12 @@ func ipsFromRules(resRules []*filtering.ResultRule) (ips []netip.Addr) {
 }
 
 // genDNSFilterMessage generates a filtered response to req for the filtering
-// result res.
+// result res.  prx is used to look up the block-page host, if necessary; it
+// may be nil if the server is closing.
 func (s *Server) genDNSFilterMessage(
 	dctx *proxy.DNSContext,
 	res *filtering.Result,
+	prx *proxy.Proxy,
 ) (resp *dns.Msg) {
 	req := dctx.Req
 	qt := req.Question[0].Qtype
@@ -63,9 +65,9 @@ func (s *Server) genDNSFilterMessage(
 
 	switch res.Reason {
 	case filtering.FilteredSafeBrowsing:
-		return s.genBlockedHost(req, s.dnsFilter.SafeBrowsingBlockHost(), dctx)
+		return s.genBlockedHost(req, s.dnsFilter.SafeBrowsingBlockHost(), dctx, prx)
 	case filtering.FilteredParental:
-		return s.genBlockedHost(req, s.dnsFilter.ParentalBlockHost(), dctx)
+		return s.genBlockedHost(req, s.dnsFilter.ParentalBlockHost(), dctx, prx)
 	case filtering.FilteredSafeSearch:
 		// If Safe Search generated the necessary IP addresses, use them.
 		// Otherwise, if there were no errors, there are no addresses for the
@@ -291,7 +293,16 @@ func (s *Server) makeResponseNullIP(req *dns.Msg) (resp *dns.Msg) {
 	return resp
 }
 
-func (s *Server) genBlockedHost(request *dns.Msg, newAddr string, d *proxy.DNSContext) *dns.Msg {
+// genBlockedHost generates a response with the addresses of the block-page
+// host newAddr, which is resolved through prx unless it is an IP address.  It
+// doesn't use [Server.proxy], because it is also called with s.serverLock
+// already locked for reading.
+func (s *Server) genBlockedHost(
+	request *dns.Msg,
+	newAddr string,
+	d *proxy.DNSContext,
+	prx *proxy.Proxy,
+) *dns.Msg {
 	if newAddr == "" {
 		log.Info("dnsforward: block host is not specified")
 
@@ -314,7 +325,6 @@ func (s *Server) genBlockedHost(request *dns.Msg, newAddr string, d *proxy.DNSCo
 		Req:   &replReq,
 	}
 
-	prx := s.proxy()
 	if prx == nil {
 		log.Debug("dnsforward: %s", srvClosedErr)
 
